@@ -24,7 +24,7 @@ type opRecord struct {
 	Done       bool
 	Started    bool
 	FaultsAtT0 int64 // stalls injected before the operation started
-	kept       []kept
+	ctx        opCtx
 	hits0      int64
 	PoolHits   int64 // pooled items handed to this operation
 	KeptBad    string
@@ -252,7 +252,7 @@ func runScript(sc *Scenario, ro runOpts) *runResult {
 				case !r.WantCapped:
 					stepLim = 20*r.WantSteps + 20000
 				}
-				keep := &r.kept
+				keep := &r.ctx
 				vsim.SetOpLimits(stepLim, vDead)
 				vsim.Inflight(1)
 				r.hits0 = vsim.PoolHitCount()
@@ -279,7 +279,7 @@ func runScript(sc *Scenario, ro runOpts) *runResult {
 			}
 			// results handed out earlier must still read the same
 			for i := range recs {
-				for _, k := range recs[i].kept {
+				for _, k := range recs[i].ctx.kept {
 					var sb strings.Builder
 					func() {
 						defer func() {
@@ -450,6 +450,9 @@ func clip(s string) string {
 func checkRecord(sc *Scenario, rr *runResult, c, i int, op *Op, r *opRecord, p, maxCost int64, viol func(string, int, int, string, ...any)) {
 	d := effTimeout(sc, op)
 	lat := r.T1 - r.T0
+	if r.ctx.calls > 1 && r.ctx.lastStart >= r.T0 {
+		lat = r.T1 - r.ctx.lastStart // a walk: the call that timed out got its own deadline when it started
+	}
 	name := opNames[op.Kind]
 	desc := func() string {
 		return fmt.Sprintf("%s pattern=%q opts=%#x input=%s", name, sc.Res[op.Re].Pat, sc.Res[op.Re].Opts, clip(fmt.Sprintf("%q", op.In.Text())))
